@@ -161,6 +161,9 @@ StepOK(e, s, t) ==
            [] e.ev = "convert_erc20" ->
                  SameBal(t, T2C(s, e.args.from, e.args.to, e.args.amt)) \/ SameBal(t, s)
            [] e.ev = "evm_transfer" -> EvmTransferOK(s, t, e.args.from)
+           \* several transfers to the module in ONE Ethereum transaction (a forwarding contract that pulls
+           \* the holder's tokens): the same relation between what left the holder and what was converted
+           [] e.ev = "evm_batch" -> EvmTransferOK(s, t, e.args.from)
            [] e.ev = "bank_send" -> BankSendOK(s, t, e.args.from, e.args.to, e.args.amt)
            [] e.ev = "ibc_recv" -> IbcInOK(s, t, e.args.to, e.args.amt)
            [] e.ev \in {"ibc_ack", "ibc_timeout"} -> IbcInOK(s, t, e.args.from, e.args.refund)
@@ -181,7 +184,7 @@ StepOK(e, s, t) ==
 \* how a step reaches the conversion code
 PathOf(ev) ==
     CASE ev \in {"convert_coin", "convert_erc20"} -> "msg"
-      [] ev \in {"evm_transfer", "evm_approve"} -> "hook"
+      [] ev \in {"evm_transfer", "evm_approve", "evm_batch"} -> "hook"
       [] ev = "bank_send" -> "bank"
       [] ev \in {"ibc_recv", "ibc_ack", "ibc_timeout", "ibc_out"} -> "ibc"
       [] ev = "holder_burn" -> "burn"
@@ -345,10 +348,18 @@ MDestroy(s) ==
                        !.tokenBal = [a \in DOMAIN @ |-> "0"]])
 
 \* M as a function: the outcome [ok, post] the code produces for (ev, args) in state s
+\* k transfers of amt to the module in one transaction, all or nothing
+RECURSIVE MEvmBatch(_, _, _, _)
+MEvmBatch(s, from, amt, k) ==
+    LET r1 == MEvmTransfer(s, from, Module, amt) IN
+    IF ~r1.ok THEN Rej(s) ELSE IF k <= 1 THEN r1
+    ELSE LET r2 == MEvmBatch(r1.post, from, amt, k - 1) IN IF r2.ok THEN r2 ELSE Rej(s)
+
 MResult(s, ev, args) ==
     CASE ev = "convert_coin"  -> MConvertCoin(s, args.from, args.to, args.amt)
       [] ev = "convert_erc20" -> MConvertERC20(s, args.from, args.to, args.amt)
       [] ev = "evm_transfer"  -> MEvmTransfer(s, args.from, args.to, args.amt)
+      [] ev = "evm_batch"     -> MEvmBatch(s, args.from, args.amt, args.k)
       [] ev = "bank_send"     -> MBankSend(s, args.from, args.to, args.amt)
       [] ev = "ibc_recv"      -> MIbcRecv(s, args.to, args.amt)
       [] ev \in {"ibc_ack", "ibc_timeout"} -> MIbcRefund(s, args.from, args.refund)
@@ -466,6 +477,7 @@ SimNext ==
        \/ LET f == RRich(hist, st.tokenBal) IN Do("convert_erc20", [from |-> f, to |-> RTo(hist, f), amt |-> RAmt(hist)])
        \/ LET f == RRich(hist, st.tokenBal) IN Do("evm_transfer", [from |-> f, to |-> Module, amt |-> RAmt(hist)])
        \/ LET f == RRich(hist, st.tokenBal) IN Do("evm_transfer", [from |-> f, to |-> RandomElement(Accts \cup {Module}), amt |-> RAmt(hist)])
+       \/ st.behaviour = "honest" /\ LET f == RRich(hist, st.tokenBal) IN Do("evm_batch", [from |-> f, amt |-> RAmt(hist), k |-> RandomElement(2..3)])
        \/ LET f == RAcct(hist) IN Do("bank_send", [from |-> f, to |-> RandomElement(Accts), amt |-> RAmt(hist)])
        \/ RIbc(hist) /\ Do("ibc_recv", [to |-> RAcct(hist), amt |-> RIbcAmt(hist)])
        \/ RIbc(hist) /\ Do("ibc_ack", [from |-> RAcct(hist), refund |-> IF RandomElement(1..4) = 1 THEN "0" ELSE RIbcAmt(hist)])
